@@ -289,6 +289,13 @@ def run_actions(actions, phase, ctx):
                  if ORIG_STDOUT is not None else None,
                  err_is_orig=(sys.stderr is ORIG_STDERR)
                  if ORIG_STDERR is not None else None)
+        elif do == 'warn_filter':
+            # what a test (or the code it imports) does to the process-wide
+            # warnings filters
+            import warnings
+            warnings.filterwarnings('ignore', message=a.get('msg', 'vw-x'))
+            if a.get('simple'):
+                warnings.simplefilter(a['simple'])
         elif do == 'probe_state':
             emit('probe.state', where=phase, ctx=ctx, **probe_state())
         elif do == 'raise_base':
@@ -329,11 +336,16 @@ def start_thread(a, ctx):
 
     def body():
         rec['ident'] = threading.get_ident()
+        if a.get('api') == '_thread_touch':
+            # a low-level thread that uses the threading module (as logging
+            # does): threading then knows it as a _DummyThread - and on
+            # CPython < 3.13 keeps that entry after the thread has ended
+            rec['name'] = threading.current_thread().name
         started.set()
         ev.wait()
         rec['finished'] = True
 
-    if a.get('api') == '_thread':
+    if (a.get('api') or '').startswith('_thread'):
         import _thread
         rec['name'] = None      # such a thread has no name of its own
         _thread.start_new_thread(body, ())
